@@ -387,6 +387,19 @@ def gen_policy_scripts(work, mode, tier, seed, quick_n=1500):
     return r, scripts, len(qs)
 
 
+def gen_dupin_scripts(tier, seed):
+    """Legacy: a second RDG_IN_DATA request under the tunnel's identifier arrives before the first one has sent its first
+    bytes; afterwards a whole session is sent on whichever of the two the gateway accepted."""
+    scripts = []
+    for n in range(4 if tier == "quick" else 24):
+        token = n % 2 == 0
+        cfg = {"tokenAuth": token, "smartCard": False, "auth": "openid" if token else "ntlm", "sel": "roundrobin", "hosts": [["H1", ":", "PA"]], "verifyIp": True, "idle": 0}
+        steps = [{"k": "hs", "cls": "valid", "caps": 2 if token else 0, "major": 1, "minor": n % 5}, {"k": "create", "cls": "valid", "cookie": "good" if token else "none"},
+                 {"k": "auth", "cls": "valid"}, {"k": "chan", "cls": "valid", "name": ["H1"], "port": "PA"}, {"k": "data", "cls": "valid", "n": 8}]
+        scripts.append({"id": "di%03d" % n, "origin": "second-in", "cfg": cfg, "transport": "legacy", "tun": dict(H_A, user="user1" if token else "nuser1"), "steps": steps, "dupIn": True})
+    return scripts
+
+
 def gen_moved_client_scripts(tier, seed):
     """One logged-in session downloads connection files for the same host from several client addresses (a client that
     moved): every file's token is bound to the address IT was issued to, whatever the session's other tokens say."""
